@@ -109,7 +109,7 @@ impl PixelDataReader for RleLosslessAdapter {
                         + if samples_per_pixel == 3 {
                             sample_number * bytes_per_sample + byte_offset
                         } else {
-                            sample_number * bytes_per_sample + samples_per_pixel - byte_offset
+                            sample_number * bytes_per_sample + (bytes_per_sample - 1 - byte_offset)
                         };
 
                     let end = (i + 1) * frame_size;
@@ -219,7 +219,7 @@ impl PixelDataReader for RleLosslessAdapter {
                 let start = if samples_per_pixel == 3 {
                     sample_number * bytes_per_sample + byte_offset
                 } else {
-                    sample_number * bytes_per_sample + samples_per_pixel - byte_offset
+                    sample_number * bytes_per_sample + (bytes_per_sample - 1 - byte_offset)
                 };
 
                 let end = frame_size;
